@@ -1,0 +1,16 @@
+//go:build verif
+
+// Contracts for the govc verifier (comment-only; see /verif/DESIGN.md).
+// This file contains no code. It is read as text by /verif/bin/govc.
+
+package zlibcut
+
+//@ default mode int
+
+// Cut: on success the returned length (2 or 6 header bytes, the cut DEFLATE
+// payload, the 4-byte Adler-32 trailer) stays inside both the limit and the buffer.
+//@ func Cut
+//@   prop C16
+//@   ensures implies(retErr == nil, 0 <= encodedLen && encodedLen <= maxEncodedLen && encodedLen <= len(encoded) && decodedLen >= 0)
+//@   ensures implies(retErr != nil, encodedLen == 0 && decodedLen == 0)
+//@   modifies mem(encoded)
